@@ -70,6 +70,17 @@ func (c *canonizer) node(n ast.Node) {
 		case nil:
 			c.b.WriteString(") ")
 			return true
+		case *ast.SelectorExpr:
+			// package-qualified name: the qualifier is dropped, so strings.Index in
+			// one package compares equal to Index inside package strings
+			if id, ok := x.X.(*ast.Ident); ok {
+				if _, isPkg := c.p.TypesInfo.Uses[id].(*types.PkgName); isPkg {
+					c.b.WriteString(x.Sel.Name + " () ")
+					return false
+				}
+			}
+			c.b.WriteString("SelectorExpr (")
+			return true
 		case *ast.Ident:
 			c.b.WriteString(c.ident(x) + " ")
 			// no children; but Inspect will call with nil afterwards
